@@ -16,6 +16,9 @@ import treegen as tg
 
 ID = 'C08'
 GEN = ['kernels']
+# the scalar kernels of functions.py this property's statement depends on (a change confined to the others is not this property's business;
+# what its own correspondence compares still is)
+KERNELS_USED = []
 PROPS = 'Props/C08.v'
 MODEL_VO = ['Model/Price.v']
 CASE_TYPE = 'c08_case'
